@@ -236,9 +236,9 @@ def downgrade (cfg : Cfg) (P : Palettes) (c : Color) (system : ColorSystem) : Ex
         .ok { name := c.name, type := .windows, number := some n, triplet := none }
   else .ok c
 
-/-- Today's code with today's runtime. -/
+/-- rich 9.10.0 as found (before fix 2cec9e1; the name `today` dates from then) with the IEEE-double facts of the running Python. -/
 def Cfg.today : Cfg := { stdViaPalette := true, satExc := satExcDouble }
-/-- The repaired code (pending_fixes/C18-*.diff) with today's runtime. -/
+/-- The repaired code (fix 2cec9e1, the former pending_fixes/C18-*.diff; what /repo contains now) with the same runtime facts. -/
 def Cfg.repaired : Cfg := { stdViaPalette := false, satExc := satExcDouble }
 
 end RichModel
